@@ -1647,9 +1647,11 @@ func (bc *Blockchain) removeOldHeaderHashes(index uint32) time.Duration {
 			Prefix: []byte{byte(storage.IXHeaderHashList)},
 		}, func(k, _ []byte) (bool, bool) {
 			first := binary.BigEndian.Uint32(k[1:])
-			if first <= uint32(till) {
+			// The batch starting at till is kept: while the batch following it
+			// is not complete, HeaderHashes loads it on start as the previous one.
+			if first < uint32(till) {
 				removed += headerBatchCount
-				return false, first != uint32(till)
+				return false, true
 			}
 			return true, false
 		})
